@@ -1,5 +1,5 @@
 (* C11 — Wait returns only when ready; a timed-out wait leaves the futures intact.
-   Statements only; proofs are in proofs/WaitEvProofs.v (invariant), WaitEvProofsP.v (producers' events), WaitEvProofsW.v
+   Statements only; proofs are in proofs/WaitEvProofs.v (invariant), WaitEvProofsP.v / WaitEvProofsP2.v (producers' events), WaitEvProofsW.v
    (waiter's events) and WaitEvProofsC.v (invariant theorem, consequences).
 
    [n_] is the number of futures — any n >= 1; [one_] selects the single-future fast path (OneCounter), which exists
@@ -90,6 +90,16 @@ Theorem c11_untimed_never_times_out :
   forall n_ one_ tr s, good_cfg n_ one_ -> run (init n_ one_ false) tr = Some s -> timedout s = false.
 Proof. exact c11p_untimed_never_times_out. Qed.
 Print Assumptions c11_untimed_never_times_out.
+
+(* Beyond the property text (which only says "returns only when"): no lost wake-up.  Whenever the waiter is parked in
+   one of its two waits and every producer has finished, the wait can return — the flag is set, the waiter has been
+   notified and the mutex is free: no completion can slip between the waiter's check of the flag and its sleep. *)
+Theorem c11_no_lost_wakeup :
+  forall n_ one_ timed_ tr s, good_cfg n_ one_ -> run (init n_ one_ timed_) tr = Some s ->
+  parked s = true -> (forall i f, nth_error (futs s) i = Some f -> finished f = true) ->
+  exists s', step s EWaitRet = Some s'.
+Proof. exact c11p_no_lost_wakeup. Qed.
+Print Assumptions c11_no_lost_wakeup.
 
 (* ---- non-vacuity: complete runs exist (these are traces of the real implementation, h_c11) ------------------ *)
 
